@@ -23,6 +23,13 @@ def run(ctx, rep):
     check_baseline(prog, rep)
     check_line_height(prog, rep)
     check_target_independence(prog, rep)
+    try:
+        from rules.builders import check_builder
+        n = check_builder(prog, rep, "R15.6", "embedded_graphics::text::text_style::TextStyleBuilder", "embedded_graphics::text::text_style::TextStyle")
+        rep.floor("R15.6", "TextStyleBuilder methods", n, 4)
+    except Exception as e:
+        import traceback; traceback.print_exc()
+        rep.fail("R15.6", "engine", "builder analysis crashed: %r" % (e,), status="undecided")
 
 
 def check_lines(prog, rep):
